@@ -526,3 +526,131 @@ def _closest_distances(run, dft, sd):
     val = z3.Lambda([j], mn)
     f = F('iterx_if_rappend', RSeq, Int, cnd.sort(), val.sort(), RSeq)
     return SeqV('R', f(T.rempty, T.alen(m.keys), cnd, val), True)
+
+
+# -------------------------------------------------------------------------------------- linear algebra
+def _la():
+    from . import liblinalg
+    return liblinalg
+
+
+@specfn('zeros')
+def _zeros(run, d):
+    return SeqV('R', _la().zeros(intterm(d)))
+
+
+@specfn('ident')
+def _ident(run, d):
+    return MatV(_la().ident(intterm(d)))
+
+
+@specfn('smul')
+def _smul(run, x, M):
+    return MatV(_la().mscale(real(x), M.term))
+
+
+@specfn('madd')
+def _madd(run, A, B):
+    return MatV(_la().madd(A.term, B.term))
+
+
+@specfn('vadd')
+def _vadd(run, u, v):
+    from .libnp import radd
+    return SeqV('R', radd(_seq(run, u, 'R').term, _seq(run, v, 'R').term))
+
+
+@specfn('gram')
+def _gram(run, X):
+    """X'X"""
+    la = _la()
+    return MatV(la.mdot(la.mT(X.term), X.term))
+
+
+@specfn('xty')
+def _xty(run, X, y):
+    """X'y"""
+    la = _la()
+    return SeqV('R', la.matvec(la.mT(X.term), _seq(run, y, 'R').term))
+
+
+@specfn('minv')
+def _minv(run, A):
+    return MatV(_la().minv(A.term))
+
+
+@specfn('matvec')
+def _matvec(run, A, v):
+    return SeqV('R', _la().matvec(A.term, _seq(run, v, 'R').term))
+
+
+@specfn('vecmat')
+def _vecmat(run, v, A):
+    return SeqV('R', _la().vecmat(_seq(run, v, 'R').term, A.term))
+
+
+@specfn('vdot')
+def _vdot(run, u, v):
+    return Num(_la().vdot(_seq(run, u, 'R').term, _seq(run, v, 'R').term))
+
+
+@specfn('row')
+def _row(run, M, i):
+    return SeqV('R', LC.mrow(M.term, intterm(i)))
+
+
+@specfn('draw_mvn')
+def _draw_mvn(run, s, mean, cov, n):
+    return MatV(LC.draw_mvn(_rs(s), _seq(run, mean, 'R').term, cov.term, intterm(n)))
+
+
+@specfn('next_mvn')
+def _next_mvn(run, s, mean, cov, n):
+    return OpaqueV(LC.next_mvn(_rs(s), _seq(run, mean, 'R').term, cov.term, intterm(n)), 'rngstate')
+
+
+@specfn('scaler_state')
+def _scaler_state(run, sc):
+    """abstract state of a StandardScaler object (or of None)"""
+    if isinstance(sc, NoneV):
+        from .lib import none_const
+        return OpaqueV(none_const(Opaque), 'scaler')
+    if isinstance(sc, Ref):
+        return run.deref(sc).fields['state']
+    return sc
+
+
+@specfn('scaler_fit')
+def _scaler_fit(run, X):
+    from . import libml
+    return OpaqueV(libml.sc_fit(X.term), 'scaler')
+
+
+@specfn('scaler_partial_fit')
+def _scaler_pfit(run, s, X):
+    from . import libml
+    return OpaqueV(libml.sc_pfit(s.term, X.term), 'scaler')
+
+
+@specfn('scaler_fix')
+def _scaler_fix(run, s):
+    from . import libml
+    return OpaqueV(libml.sc_fix(s.term), 'scaler')
+
+
+@specfn('scaler_fitted')
+def _scaler_fitted(run, s):
+    from . import libml
+    return BoolV(libml.sc_fitted(s.term))
+
+
+@specfn('scaler_transform')
+def _scaler_transform(run, s, X):
+    from . import libml
+    return MatV(libml.sc_apply(s.term, X.term))
+
+
+@specfn('UNFITTED')
+def _unfitted(run):
+    from . import libml
+    return OpaqueV(libml.sc_new, 'scaler')
